@@ -259,11 +259,17 @@ def apply_op(ctx, w, op):
     raise HarnessError("op " + k)
 
 
+def _with_optimizer(w):
+  # optimizer state goes into the file when the model was really trained and
+  # has not been rebuilt from JSON since (see the RESTART op)
+  return bool(getattr(w, "fit_done", False)) and not getattr(w, "cloned", False)
+
+
 def count_writes(w):
   import h5py
   sf = SimFile()
   with h5py.File(sf, "w") as f:
-    w.model.save(f)
+    w.model.save(f, include_optimizer=_with_optimizer(w))
   return sf.writes, bytes(sf.buf)
 
 
@@ -296,7 +302,7 @@ def save_fault(ctx, w, op):
   try:
     f = h5py.File(sf, "w")
     try:
-      w.model.save(f)
+      w.model.save(f, include_optimizer=_with_optimizer(w))
     finally:
       try:
         f.close()
